@@ -6,3 +6,5 @@ mod rpc_server;
 mod start;
 
 pub use start::start;
+#[cfg(feature = "verif")]
+pub use rpc_server::verif_rpc_methods;
